@@ -32,7 +32,8 @@ ASSUMPTIONS = [
 REQUIRED_MONITORS = ["pinhole_converges", "slit_length_converges", "slit_width_converges", "slit_both_converges", "pinhole2d_increment", "copied_calculator_converges"]
 REQUIRED_BUCKETS = {"quick": ["geom:pinhole", "geom:slit(L,0)", "geom:slit(0,W)", "geom:slit(L,W)", "geom:2d",
                               "f:poly", "f:lorentz2", "f:dampedcos", "window_crosses_zero", "acc:low", "acc:med",
-                              "acc:high", "acc:xhigh", "q<W", "sigma:interior-point-widest", "pixel_on_axis", "q_calc:without-data-points", "pixel_with_one_zero_width", "coordinates_rewritten_after_construction", "calculator:copy", "calculator:deepcopy", "calculator:pickle"]}
+                              "acc:high", "acc:xhigh", "q<W", "sigma:interior-point-widest", "pixel_on_axis", "q_calc:without-data-points", "pixel_with_one_zero_width", "coordinates_rewritten_after_construction", "calculator:copy", "calculator:deepcopy", "calculator:pickle",
+                              "caller-arrays-reused-before-first-apply", "slit:per-point-arrays", "route:data-object-with-some-zero-widths"]}
 REQUIRED_BUCKETS["thorough"] = REQUIRED_BUCKETS["quick"]
 
 
@@ -68,6 +69,8 @@ def gen_cases(tier, seed):
         g = geoms[k % len(geoms)]
         cases.append({"id": "%s/%04d" % (g, k), "geom": g, "k": k, "seed": seed, "group": "g%d" % (k % 64),
                       "cost": 3.0 if g == "slit(L,W)" else 1.0})
+    for k in range(8 if tier == "quick" else 80):
+        cases.append({"id": "dm/%03d" % k, "geom": "dm", "k": k, "seed": seed, "group": "dm%d" % (k % 16), "cost": 2.0})
     return cases
 
 
@@ -153,10 +156,26 @@ def run_1d(case, rec):
         else:
             # a user grid that does not contain the data points (they fall anywhere inside its bins)
             qc = np.unique(grid)
+        # the calculator is built from the caller's own arrays, which the caller then reuses for something else
+        # before the first curve is smeared: the calculator stays the one that was built
+        q_in = q.copy()
         if geom == "pinhole":
-            res = resolution.Pinhole1D(q, s, q_calc=qc)
+            s_in = s.copy()
+            res = resolution.Pinhole1D(q_in, s_in, q_calc=qc)
+            owned = [q_in, s_in]
+        elif mult == 2:
+            L_in = np.full(npts, L) if L else None
+            W_in = np.full(npts, W) if W else None
+            res = resolution.Slit1D(q_in, q_length=L_in, q_width=W_in, q_calc=qc)
+            owned = [a_ for a_ in (q_in, L_in, W_in) if a_ is not None]
+            rec.bucket("slit:per-point-arrays")
         else:
-            res = resolution.Slit1D(q, q_length=L if L else None, q_width=W if W else None, q_calc=qc)
+            res = resolution.Slit1D(q_in, q_length=L if L else None, q_width=W if W else None, q_calc=qc)
+            owned = [q_in]
+        for a_ in owned:
+            a_ *= 2.9
+            a_ += 0.0137
+        rec.bucket("caller-arrays-reused-before-first-apply")
         theory = np.ascontiguousarray(f(res.q_calc), float)
         theory0 = theory.copy()
         got = res.apply(theory)
@@ -317,7 +336,58 @@ def run_2d(case, rec):
         rec.observe(quadratic=[a, b, c, dd], increment_exact=inc_exact[:3], increment_got=inc_got[:3])
 
 
+def run_dm(case, rec):
+    """The route through a data object (DirectModel, the Iq helper) with the automatic calculation grid: a measured
+    curve whose widths contain exact zeros next to positive widths (a merged file with a missing dq, an added q point).
+    Points with a width converge to the pinhole integral as the data spacing is refined; points without are unsmeared."""
+    from sasmodels import direct_model, data as sdata, core as sascore
+    k = case["k"]
+    rng = core.rng_for(case["seed"], PROP, "dm", k)
+    rg, scale = float(rng.uniform(20, 60)), float(rng.uniform(0.5, 3))
+    f = lambda x: scale*np.exp(-(np.asarray(x, float)*rg)**2/3.0)
+    sigma = float(rng.uniform(0.25, 0.6))/rg
+    qlo, qhi = 5.0*sigma, 5.0*sigma + float(rng.uniform(2.5, 4.0))/rg
+    h0 = sigma/float(rng.uniform(10, 20))
+    via = ["DirectModel", "Iq"][k % 2]
+    model = sascore.load_model("guinier")
+    errs, bounds = [], []
+    probe = np.linspace(qlo + 3.2*sigma, qhi - 3.2*sigma, 5)
+    okz = True
+    for mult in (4, 2, 1):
+        h = h0*mult
+        q = qlo + h*np.arange(int((qhi - qlo)/h) + 1)
+        dq = np.full(len(q), sigma)
+        zero = np.zeros(len(q), bool)
+        zero[rng.choice(np.arange(3, len(q) - 3), 3, replace=False)] = True
+        # probes: the data points nearest to five fixed positions, none of them a zero-width point
+        pidx = sorted({int(np.argmin(np.abs(q - x_) + 1e9*zero)) for x_ in probe})
+        dq[zero] = 0.0
+        if via == "DirectModel":
+            d = sdata.empty_data1D(q, resolution=0.0)
+            d.dx = dq.copy()
+            got = np.asarray(direct_model.DirectModel(d, model)(rg=rg, scale=scale, background=0.0), float)
+        else:
+            got = np.asarray(direct_model.Iq("guinier", q, dq=dq.copy(), rg=rg, scale=scale, background=0.0), float)
+        exact = np.array([exact_pinhole(f, float(q[j]), sigma) for j in pidx])
+        errs.append(np.abs(got[pidx] - exact))
+        S = float(np.ptp(f(np.linspace(qlo - 3*sigma, qhi + 3*sigma, 400))))
+        bounds.append(0.15*(h/sigma)*S)
+        okz &= bool(np.all(np.abs(got[zero] - f(q[zero])) <= 1e-6*np.abs(f(q[zero]))))
+    ok = all(bool(np.all(e <= b)) for e, b in zip(errs, bounds))
+    smear = float(np.max(np.abs(exact - f(q[pidx]))))
+    rec.check("pinhole_converges", ok,
+              None if ok else {"geometry": "pinhole through " + via + ", automatic grid, widths with exact zeros among them",
+                               "rg": rg, "sigma": sigma, "h": h0, "errors_4h_2h_h": [e.tolist() for e in errs], "bounds": bounds,
+                               "smearing_effect_at_probes": smear})
+    rec.check("zero_width_points_unsmeared", okz, {"via": via, "rg": rg, "sigma": sigma})
+    rec.bucket("route:data-object-with-some-zero-widths", "geom:pinhole")
+    rec.count("max_err_over_bound_x1000", int(1000*max(float(np.max(e)/b) for e, b in zip(errs, bounds))))
+    rec.set_shape(("dm", via, round(rg), round(sigma*rg, 2)), nontrivial=smear > 3*bounds[-1])
+
+
 def run_case(case, rec):
+    if case["geom"] == "dm":
+        return run_dm(case, rec)
     if case["geom"] == "2d":
         run_2d(case, rec)
     else:
